@@ -501,6 +501,12 @@ func (s *Service) stopRunnablePipeline(ctx context.Context, rp *runnablePipeline
 		// (see the switch on rp.t.Err() below) classifies it as terminal and error
 		// recovery — once wired in — never auto-restarts a pipeline the user
 		// explicitly stopped.
+		// tomb.v2 keeps the FIRST Kill reason only: if a worker's transient error
+		// reached the tomb a moment earlier, this fatal tag is dropped and the
+		// cleanup goroutine would classify the run as a spontaneous transient
+		// failure and restart the pipeline the user just force-stopped. Mark the
+		// run as deliberately stopped as well, so that arm finalizes it instead.
+		rp.intentionalStop.Store(true)
 		rp.t.Kill(cerrors.FatalError(pipeline.ErrForceStop))
 		return nil
 	}
